@@ -130,3 +130,41 @@ def model_array(model, ids, default=0.0):
 
 def cfg_hash(cfg):
     return hashlib.sha1(json.dumps(cfg, sort_keys=True, default=str).encode()).hexdigest()[:12]
+
+
+def run_paths(res, body, max_paths=12, default64=True):
+    """CrossHair-style exploration of data-dependent branches: body() performs one symbolic run (it may consult
+    P.PATHS.taken for the path condition) and everything that depends on it; it is re-run once per feasible path."""
+    from vlib import smt as _smt
+    pending = [[]]
+    n = 0
+    last = None
+    while pending:
+        prefix = pending.pop(0)
+        begin(default64)
+        P.PATHS.prefix = list(prefix)
+        P.PATHS.enabled = True
+        P.PATHS.feasible = _smt.feasible
+        last = body()
+        n += 1
+        pending.extend(P.PATHS.pending)
+        if res.status == 'error':
+            break
+        if n >= max_paths and pending:
+            if res.status == 'held':
+                res.status = 'inconclusive'
+            res.notes.append('path budget exhausted (%d paths explored, %d pending)' % (n, len(pending)))
+            break
+    res.paths = n
+    return last
+
+
+def path_env_ok(env):
+    """does the float environment follow the path of the current symbolic run?"""
+    for c, dec in P.PATHS.taken:
+        try:
+            if bool(P.cond_evalf(c, env)) != dec:
+                return False
+        except KeyError:
+            return False
+    return True
